@@ -349,6 +349,32 @@ theorem offdiag_never_altered (f : Option Op → List Bool → Nat → RS → Sl
     have : cutoff + (p - cutoff) = p := by omega
     rw [this]; exact hpad
 
+/-- A sweep with cutoff `L` leaves every slot at position `≥ L` exactly as it was (a container that is longer than
+the sweep — pre-grown, or recycled from a longer run — keeps its tail), and the resulting string has length
+`max L |slots|`. The count `n` the decisions use still counts the operators of the tail (`sweep` starts from
+`countOps` of the whole padded string), but the *length* they use is the sweep cutoff `L`, a parameter of the slot
+function — not the container length. -/
+theorem sweep_leaves_tail_untouched (f : Option Op → List Bool → Nat → RS → SlotRes)
+    (cutoff : Nat) (c : Config) (rs : RS) (p : Nat) (hp : cutoff ≤ p) :
+    (sweep f cutoff c rs).1.slots[p]? = c.slots[p]? ∧
+    (sweep f cutoff c rs).1.slots.length = max cutoff c.slots.length := by
+  unfold sweep
+  simp only
+  have hlen := sweepAux_length f ((padSlots cutoff c.slots).take cutoff) c.state
+    (countOps (padSlots cutoff c.slots)) rs
+  have hl : ((padSlots cutoff c.slots).take cutoff).length = cutoff := by
+    rw [List.length_take]; unfold padSlots; simp; omega
+  constructor
+  · rw [List.getElem?_append_right (by rw [hlen, hl]; exact hp), hlen, hl, List.getElem?_drop]
+    have : cutoff + (p - cutoff) = p := by omega
+    rw [this]
+    unfold padSlots
+    by_cases hpl : p < c.slots.length
+    · rw [List.getElem?_append_left hpl]
+    · rw [List.getElem?_eq_none (by simp; omega), List.getElem?_eq_none (by omega)]
+  · rw [List.length_append, hlen, hl, List.length_drop]
+    unfold padSlots; simp; omega
+
 theorem offdiag_never_altered_M (H : Ham) (β : Rat) (cutoff : Nat) (c : Config) (rs : RS) (p : Nat) (op : Op)
     (h : c.slots[p]? = some (some op)) (hd : op.tagDiag = false) :
     (metropolisSweep H β cutoff c rs).1.slots[p]? = some (some op) :=
